@@ -40,7 +40,8 @@ EXPLANATION = (
     "(R9) a pending USE/REFERENCE item is matched under the key it is stored under. (R10) when a look-up wrapper's optional \"search subtypes too\" request parameter is NULL, every reachable call passes NULL for the callee's search-mode parameter (mode parameters discovered as NULL-tested parameters guarding recursive search calls). Not decided: that each malformed schema reaches its detection branch; agreement on warnings."
     " (R11) wherever a DICTdefine is guarded by a test of the result of a DICTlookup made in the same function (SCHEMAdefine_use, SCHEMAdefine_reference, TYPEcreate_user_defined_tag), the look-up reads the table the definition goes into, under the same key: otherwise a conflicting second import is accepted and a repeated identical one is rejected."
     " (R6N, shared with C06) a local pointer of the resolver is not dereferenced where every reaching definition is the null constant: a tool that crashes while formatting a diagnostic delivers no verdict."
-    " (R12) an operand that is resolved in the resolver's silent mode (hint Type_Unknown) is resolved again, on a path that follows, with a hint that is neither Type_Unknown nor taken from the operand itself.")
+    " (R12) an operand that is resolved in the resolver's silent mode (hint Type_Unknown) is resolved again, on a path that follows, with a hint that is neither Type_Unknown nor taken from the operand itself."
+    " (R13) a function that starts a stamped walk (increments __SCOPE_search_id) does not compare a node's stamp with the counter before the increment: a stamp is meaningful only inside the walk that wrote it, so a cycle check is never skipped on the evidence of an earlier walk or look-up.")
 
 STAGES = ["EXPRESSparse", "EXPRESSresolve"]
 DUMP_CODES = {"BAIL_OUT", "CORRUPTED_TYPE"}
